@@ -9,6 +9,7 @@ import sys
 import traceback
 
 CHECKS = {
+    "C20": ("harness.checks.c20", "C20"),
     "C18": ("harness.checks.c18", "C18"),
     "C13": ("harness.checks.relayfam", "C13"),
     "C05": ("harness.checks.relayfam", "C05"),
